@@ -15,6 +15,14 @@ def handlers : List (String × Handler) := [
   ("charge.nonint", fun a => match a with
     | [c, tol] => encBool (nonInteger (PsizeD.decF c) (PsizeD.decF tol))
     | _ => str "bad-op"),
+  ("repair.gate", fun a => match a with
+    | [h, m, lig] =>
+      match h.toS.toNat?, m.toS.toNat? with
+      | some h, some m => str (match repairGate h m (decBool lig) with
+          | .noHeavyError => "ValueError" | .noHeavyLigand => "False:warning" | .clean => "False:info"
+          | .tooMany => "False:error" | .repair => "True")
+      | _, _ => str "bad-op"
+    | _ => str "bad-op"),
   ("charge.formalname", fun a => match a with
     | [n] => intStr (P2P.ChargeTable.formalOfName (unhex n))
     | _ => str "bad-op")
